@@ -807,6 +807,9 @@ func psSearch(start *ssa.BasicBlock, cut []Edge, blocked func(*ssa.BasicBlock) b
 		// conditions defined in this block are recomputed: forget them
 		known := n.known
 		for v := range known {
+			if _, isPhi := v.(*ssa.Phi); isPhi {
+				continue // phi outcomes are maintained on the edge into the block (below)
+			}
 			if in, ok := v.(ssa.Instruction); ok && in.Block() == b && n.prev != nil {
 				known = copyKnown(known)
 				delete(known, v)
@@ -826,18 +829,24 @@ func psSearch(start *ssa.BasicBlock, cut []Edge, blocked func(*ssa.BasicBlock) b
 				continue
 			}
 			nk := known
-			if isIf && multi[ck] {
+			if isIf {
 				// outcome of the underlying value on this edge
 				out := (i == 0) == cpos
+				if isNilOut, okn := nilTestOutcome(ck, known); okn && isNilOut != out {
+					continue // infeasible: the compared value is known (not) to be nil on this path
+				}
 				if prevOut, ok := known[ck]; ok {
 					if prevOut != out {
-						continue // infeasible: contradicts an earlier test of the same value
+						continue // infeasible: contradicts an earlier test of the same value, or the constant a flag was set to on this path
 					}
-				} else {
+				} else if multi[ck] {
 					nk = copyKnown(known)
 					nk[ck] = out
 				}
 			}
+			// boolean phis of the successor: the value that arrives over this edge, when it is a
+			// constant or a condition whose outcome is known on this path (flag variables)
+			nk = phiOutcomes(b, s, nk)
 			st := state{s, sigOf(nk)}
 			if seen[st] {
 				continue
@@ -1057,6 +1066,29 @@ func subStores(a ssa.Value) []ssa.Value {
 // a single static store does not identify the value a later load sees.
 func cellSharedByClosure(a *ssa.Alloc, fn *ssa.Function) bool {
 	par := a.Parent()
+	// A cell whose stores can never run again once a closure over it exists holds one value for
+	// every iteration (a parameter, a value computed before the loop): nothing is confused.
+	if a.Referrers() != nil {
+		reexecuted := false
+		for _, r := range *a.Referrers() {
+			st, ok := r.(*ssa.Store)
+			if !ok || st.Addr != ssa.Value(a) {
+				continue
+			}
+			for _, b := range par.Blocks {
+				for _, in := range b.Instrs {
+					if mc, ok := in.(*ssa.MakeClosure); ok && mc.Fn == fn {
+						if canFollow(mc, st) {
+							reexecuted = true
+						}
+					}
+				}
+			}
+		}
+		if !reexecuted {
+			return false
+		}
+	}
 	for _, b := range par.Blocks {
 		for _, in := range b.Instrs {
 			mc, ok := in.(*ssa.MakeClosure)
@@ -1243,4 +1275,168 @@ func strictLess(v ssa.Value) (x, y ssa.Value, ok bool) {
 		return a.Y, a.X, true
 	}
 	return nil, nil, false
+}
+
+// freshFieldForward: u loads field f of an object allocated in u's function;
+// if that function stores to this field of this object exactly once, in a block
+// that dominates the load (or earlier in the same block), return the stored value.
+func freshFieldForward(u *ssa.UnOp) ssa.Value {
+	fa, ok := u.X.(*ssa.FieldAddr)
+	if !ok {
+		return nil
+	}
+	al, ok := fa.X.(*ssa.Alloc)
+	if !ok || al.Parent() != u.Parent() || al.Referrers() == nil {
+		return nil
+	}
+	var st *ssa.Store
+	n := 0
+	for _, r := range *al.Referrers() {
+		fb, ok := r.(*ssa.FieldAddr)
+		if !ok || fb.Field != fa.Field || fb.Referrers() == nil {
+			continue
+		}
+		for _, rr := range *fb.Referrers() {
+			if s, ok := rr.(*ssa.Store); ok && s.Addr == ssa.Value(fb) {
+				st = s
+				n++
+			}
+		}
+	}
+	if n != 1 {
+		return nil
+	}
+	if st.Block() == u.Block() {
+		if instrIndex(st) < instrIndex(u) {
+			return st.Val
+		}
+		return nil
+	}
+	if st.Block().Dominates(u.Block()) {
+		return st.Val
+	}
+	return nil
+}
+
+// fwdStrip is strip plus forwarding of fields of freshly allocated objects
+// (s := new(T); s.id = id; ... use of s.id is a use of id).
+func fwdStrip(v ssa.Value) ssa.Value {
+	for i := 0; i < 6; i++ {
+		v = strip(v)
+		u, ok := v.(*ssa.UnOp)
+		if !ok || u.Op != token.MUL {
+			return v
+		}
+		fw := freshFieldForward(u)
+		if fw == nil {
+			return v
+		}
+		v = fw
+	}
+	return v
+}
+
+// phiOutcomes updates the known outcomes with the boolean phis of block to for
+// the edge from -> to: a constant incoming value fixes the phi's outcome on
+// this path, a condition with a known outcome passes it on, anything else
+// makes the phi unknown again.
+func phiOutcomes(from, to *ssa.BasicBlock, known map[ssa.Value]bool) map[ssa.Value]bool {
+	copied := false
+	set := func(v ssa.Value, val bool, del bool) {
+		if !copied {
+			known = copyKnown(known)
+			copied = true
+		}
+		if del {
+			delete(known, v)
+		} else {
+			known[v] = val
+		}
+	}
+	for _, in := range to.Instrs {
+		ph, ok := in.(*ssa.Phi)
+		if !ok {
+			break
+		}
+		bt, okb := ph.Type().Underlying().(*types.Basic)
+		isBool := okb && bt.Info()&types.IsBoolean != 0
+		nilable := false
+		switch ph.Type().Underlying().(type) {
+		case *types.Interface, *types.Pointer, *types.Map, *types.Slice, *types.Chan, *types.Signature:
+			nilable = true
+		}
+		if !isBool && !nilable {
+			continue
+		}
+		idx := -1
+		for k, pr := range to.Preds {
+			if pr == from {
+				idx = k
+			}
+		}
+		if idx < 0 {
+			continue
+		}
+		e := ph.Edges[idx]
+		if nilable {
+			// known[phi] == true means "the phi is nil on this path"
+			switch {
+			case isNilConst(e):
+				set(ph, true, false)
+			case definitelyNonNil(e):
+				set(ph, false, false)
+			default:
+				if e2, isPhi := e.(*ssa.Phi); isPhi {
+					if out, okk := known[e2]; okk {
+						set(ph, out, false)
+						continue
+					}
+				}
+				if _, had := known[ph]; had {
+					set(ph, false, true)
+				}
+			}
+			continue
+		}
+		if c, okc := e.(*ssa.Const); okc && c.Value != nil {
+			set(ph, c.Value.String() == "true", false)
+			continue
+		}
+		ek, pos := condKey(e)
+		if out, okk := known[ek]; okk {
+			set(ph, out == pos, false)
+			continue
+		}
+		if _, had := known[ph]; had {
+			set(ph, false, true)
+		}
+	}
+	return known
+}
+
+// nilTestOutcome: if cond is "v == nil" or "v != nil" for a phi v whose nil-ness
+// is known on the path, return the outcome of cond.
+func nilTestOutcome(cond ssa.Value, known map[ssa.Value]bool) (bool, bool) {
+	bo, ok := cond.(*ssa.BinOp)
+	if !ok || (bo.Op != token.EQL && bo.Op != token.NEQ) {
+		return false, false
+	}
+	var v ssa.Value
+	switch {
+	case isNilConst(bo.Y):
+		v = bo.X
+	case isNilConst(bo.X):
+		v = bo.Y
+	default:
+		return false, false
+	}
+	ph, isPhi := v.(*ssa.Phi)
+	if !isPhi {
+		return false, false
+	}
+	isNil, okk := known[ph]
+	if !okk {
+		return false, false
+	}
+	return isNil == (bo.Op == token.EQL), true
 }
